@@ -5,7 +5,7 @@ import struct
 from tools.vlib import *
 
 PID = "C19"
-READY = False
+READY = True
 MANIFEST = {
     "level_text": "Lean 4 theorems, for every hash function, all field values, nonces, difficulties and digests of every length, about a "
                   "model of the four PoW surfaces (announce, handshake incl. the CLI's transport variant, store, bootstrap token): each "
